@@ -172,12 +172,35 @@ type Call struct {
 	// what was actually handed to the interceptor (C12: the picker must find
 	// exactly these in the call context)
 	sentReq, sentReply interface{}
-	Chained            bool // the caller's context derives from an earlier intercepted call's context
+	lag                *reqCtx // the call runs under the application's shared request context
+	Chained            bool    // the caller's context derives from an earlier intercepted call's context
 	peekBad            string
 }
 
+// reqCtx is a request-scoped context of the application: a deadline shared by
+// several calls. Like a real context.WithDeadline its Done channel closes a
+// little after the deadline instant (there a timer goroutine has to run first;
+// here the harness cancels it at an operation boundary after the deadline), so a
+// call can be started with a context whose deadline has passed and which is not
+// done yet.
+type reqCtx struct {
+	context.Context
+	dl        time.Time
+	deadline  time.Duration // simulated time
+	cancel    context.CancelFunc
+	cancelled bool
+	spared    bool // one call was started after the deadline, before the cancellation
+	at        time.Duration
+}
+
+//go:norace
+func (r *reqCtx) Deadline() (time.Time, bool) { return r.dl, true }
+
 //go:norace
 func (c *Call) CtxEnded(at time.Duration) bool {
+	if c.lag != nil {
+		return c.lag.cancelled && c.lag.at <= at
+	}
 	return (c.WasCancelled && c.CancelledAt <= at) || (c.HasDeadline && c.Deadline <= at)
 }
 
@@ -219,6 +242,7 @@ type Sim struct {
 	stop         bool
 	addrSets     [][]resolver.Address
 	nConnErr     int
+	req          *reqCtx  // the application's current request-scoped context
 	burstBound   []string // keys the concurrent burst certainly bound (enterSerial)
 	addrMaster   []resolver.Address
 	addrWin      [][2]int
@@ -414,7 +438,16 @@ func Run(t *testing.T, plan *Plan, src *simkit.Source, opts Options) *simkit.Res
 		s.run()
 	})
 	if h != "" && res.Harness == "" {
-		res.Harness = h
+		stuck := false
+		for _, v := range res.Violations {
+			stuck = stuck || v.Rule == "blocked-holding-lock"
+		}
+		// a library goroutine stuck for good in a real blocking operation cannot be
+		// torn down: the bubble's complaint about it is the reported violation's
+		// consequence, not harness trouble
+		if !(stuck && strings.Contains(h, "blocked goroutines remain")) {
+			res.Harness = h
+		}
 	}
 	res.Tape = src.Recorded()
 	return res
@@ -520,9 +553,100 @@ func (s *Sim) run() {
 		} else {
 			s.heal()
 		}
+		if !s.stop && !k.Aborting() && s.plan.Second {
+			s.secondBalancer(builder)
+		}
 	}
 	s.finish()
 }
+
+// secondBalancer: the application edits its configuration object in place (one
+// more channel at start) and uses the same object for a second channel: a new
+// balancer, built by the same builder, whose first resolver update carries it.
+// The configuration of a balancer is fixed by ITS first update (C17): the second
+// pool starts with the size the object says now, the first one is not affected
+// (the routing probes of finish() still run against it).
+//
+//go:norace
+func (s *Sim) secondBalancer(builder balancer.Builder) {
+	if s.callerCfg == nil || s.callerCfg.ApiConfig == nil || s.cfgSnap == nil || s.cfgFaulted() {
+		return
+	}
+	api := s.callerCfg.ApiConfig
+	if api.ChannelPool == nil {
+		api.ChannelPool = &pb.ChannelPoolConfig{}
+	}
+	oldMin := int(api.ChannelPool.MinSize)
+	if oldMin == 0 {
+		oldMin = 1
+	}
+	newMin := oldMin + 1
+	api.ChannelPool.MinSize = uint32(newMin)
+	if m := api.ChannelPool.MaxSize; m == 0 && newMin > 4 || m != 0 && int(m) < newMin {
+		api.ChannelPool.MaxSize = uint32(newMin)
+	}
+	s.cfgSnap = proto.Clone(api).(*pb.ApiConfig) // the caller's own edit
+	env2 := NewEnv(s.k)
+	cc2 := &FakeCC{env: env2}
+	var b2 balancer.Balancer
+	addrs, _ := s.resolved(0)
+	tag := &TaskTag{Op: s.opIdx, Phase: PhCore, Call: -1}
+	note := ""
+	s.k.Spawn("core2:second-balancer", 1, tag, func() {
+		note = s.guard(func() {
+			b2 = builder.Build(cc2, balancer.BuildOptions{})
+			b2.UpdateClientConnState(balancer.ClientConnState{ResolverState: resolver.State{Addresses: addrs}, BalancerConfig: s.callerCfg})
+		})
+	})
+	s.k.Quiesce()
+	s.afterOp()
+	s.res.Count("fault:config_object_edited_and_reused_for_a_second_balancer", 1)
+	if s.stop || note != "" {
+		return
+	}
+	if n := len(env2.Conns); n != newMin {
+		s.vio("C17", "second-balancer-stale-config", "", fmt.Sprintf("a second balancer whose first resolver update carried the caller's configuration object (minSize edited in place from %d to %d after the first balancer had taken its configuration) created %d connections, want %d", oldMin, newMin, n, newMin))
+		return
+	}
+	// Both balancers are alive (two channels of one process): the first one goes
+	// on working by its own state - a few more calls, judged by the model as ever
+	// (round-robin BIND calls when that is the strategy: they walk the channel
+	// list, which is the first balancer's own).
+	if !s.degraded && s.bal != nil && len(s.env.Pubs) > 0 {
+		n := s.model.poolSize() + 1
+		if n > 6 {
+			n = 6
+		}
+		for j := 0; j < n && !s.stop; j++ {
+			m := MPlain
+			if s.model.cfg.rr {
+				m = MBind
+			}
+			q := s.probeCall(s.opIdx, m, nil)
+			s.res.Count("probe:first_balancer_called_while_second_alive", 1)
+			if s.stop {
+				return
+			}
+			if q.InFlight {
+				s.finishCall(s.opIdx, q, OutAppErr, nil)
+				s.k.Quiesce()
+				s.afterOp()
+			}
+		}
+		if s.stop {
+			return
+		}
+	}
+	s.k.Spawn("core2:close", 1, tag, func() { s.guard(func() { b2.Close() }) })
+	s.k.Quiesce()
+	s.afterOp()
+}
+
+// cfgFaulted: the run used a second configuration or mutated the object itself
+// (those faults have their own checks).
+//
+//go:norace
+func (s *Sim) cfgFaulted() bool { return s.model.cfgFaulted || s.plan.Cfg.NilCfg || s.plan.Cfg.NilPool }
 
 // settle runs to quiescence in serial mode, or the operation's step budget in
 // concurrent mode.
@@ -559,8 +683,31 @@ func (s *Sim) afterOp() {
 // lock can never proceed - a lock cycle, or a lock held by a task that waits for
 // something else.
 //
+// checkStuck: everything has quiesced and a task sits in a real blocking
+// operation (a channel operation the kernel does not own, a WaitGroup, ...)
+// while it holds a lock of the library: nothing the harness does can wake it,
+// and everybody who needs that lock waits with it (C06).
+//
+//go:norace
+func (s *Sim) checkStuck() {
+	if s.stop {
+		return
+	}
+	for _, t := range s.k.Blocked(kern.BlockedReal) {
+		if held := t.HeldLocks(); len(held) > 0 {
+			s.vio("C06", "blocked-holding-lock", "", fmt.Sprintf("%s is blocked in an operation outside the library's locks while holding %v (last seen at %s)", t.Name, held, t.Site))
+			s.stop = true
+			return
+		}
+	}
+}
+
 //go:norace
 func (s *Sim) checkDeadlock() {
+	s.checkStuck()
+	if s.stop {
+		return
+	}
 	for _, t := range s.k.Blocked(kern.BlockedLock) {
 		fn := ""
 		for _, o := range kern.Owners(t.WaitLock()) {
@@ -624,8 +771,9 @@ func (s *Sim) safety(ev Event) {
 		}
 	case EvRemoveSC:
 		if ev.Note == "again" && !s.degraded {
+			// recorded, and the run goes on: what follows from it (a connection that is
+			// never removed keeps counting for the published state) belongs to C04
 			s.vio("C07", "old-conn-not-removed-once", "concurrent", fmt.Sprintf("RemoveSubConn(sc%d) called twice", ev.Conn))
-			s.stop = true
 		}
 	}
 }
@@ -708,6 +856,7 @@ func (s *Sim) checkKernel() {
 //
 //go:norace
 func (s *Sim) checkQuiescent() {
+	s.checkStuck()
 	if s.stop {
 		return
 	}
@@ -748,6 +897,7 @@ func (s *Sim) checkQuiescent() {
 		}
 		if p, ok := s.model.PredictRR(cm); (ok && s.model.chans[p].state == connectivity.Ready && !s.model.chans[p].gone) || (allReady && s.model.poolSize() > 0) {
 			s.vio("C06", "rr-wait-although-ready", s.model.refreshFact(s.model.chans[p]), fmt.Sprintf("round-robin BIND call %d still waits although its channel is READY", c.ID))
+			s.vio("C09", "rr-not-handed-when-ready", s.model.refreshFact(s.model.chans[p]), fmt.Sprintf("round-robin BIND call %d still waits although its channel is READY", c.ID))
 			s.stop = true
 			return
 		}
@@ -797,8 +947,45 @@ func (s *Sim) stepsAfter(o Op) {
 	}
 }
 
+// endReq ends the application's request context (once).
+//
+//go:norace
+func (s *Sim) endReq(rq *reqCtx) {
+	if rq.cancelled {
+		return
+	}
+	rq.cancelled, rq.at = true, s.k.Elapsed()
+	rq.cancel()
+}
+
+// lagExpiry: the request context's deadline has passed; its cancellation
+// follows before this operation or, for every other pick, right after it.
+//
+//go:norace
+func (s *Sim) lagExpiry(o Op, after bool) {
+	rq := s.req
+	if rq == nil || rq.cancelled || rq.deadline > s.k.Elapsed() {
+		return
+	}
+	if after && !rq.spared {
+		return // the next operation decides
+	}
+	if !after && !rq.spared && o.K == OpPick && o.D == 3 {
+		rq.spared = true
+		return // this call still sees the context alive
+	}
+	rq.cancelled, rq.at = true, s.k.Elapsed()
+	s.cancelCtx(rq.cancel)
+	s.k.Bump()
+	if !s.conc {
+		s.k.Quiesce()
+	}
+}
+
 //go:norace
 func (s *Sim) exec(i int, o Op) {
+	s.lagExpiry(o, false)
+	defer s.lagExpiry(o, true)
 	env := s.env
 	switch o.K {
 	case OpResolver:
@@ -1158,6 +1345,22 @@ func (s *Sim) startCall(i int, o Op) {
 		c.cancel() // no task has seen this context yet
 		c.WasCancelled, c.CancelledAt = true, s.k.Elapsed()
 		s.env.Fired["ctx_cancelled_before_pick"]++
+	case 3:
+		if s.req == nil || s.req.cancelled {
+			d := time.Duration(o.E) * time.Millisecond
+			inner, cancel := context.WithCancel(context.Background())
+			s.req = &reqCtx{Context: inner, dl: time.Now().Add(d), deadline: s.k.Elapsed() + d, cancel: cancel}
+			s.k.AddStop(s.req.dl)
+			s.env.Fired["request_context_created"]++
+		}
+		rq := s.req
+		c.lag = rq
+		c.ctx = rq
+		c.cancel = func() { s.endReq(rq) }
+		c.HasDeadline, c.Deadline = true, rq.deadline
+		if rq.deadline <= s.k.Elapsed() {
+			s.env.Fired["call_started_after_the_deadline_of_a_context_not_yet_done"]++
+		}
 	default:
 		c.ctx, c.cancel = context.WithCancel(base)
 	}
